@@ -26,14 +26,24 @@ ASSUMPTIONS = ['names are short enough that each tag pair fits on one 255-charac
 ALPHA = GB.PBN_ALPHABET
 NAME = st.one_of(st.text(alphabet=ALPHA, max_size=30), st.text(alphabet=ALPHA, max_size=100),
                  st.text(alphabet='ab  1', max_size=10), st.text(alphabet=ALPHA, min_size=200, max_size=230))
+
+
+def fitting(tag):
+    """Names for one tag: the usual ones, plus names whose tag pair is exactly as long as one line allows, or one / two /
+    three characters shorter ([Tag "name"] + newline <= 255 characters - the property's 'short enough')."""
+    longest = 255 - 1 - len(f'[{tag} ""]')
+    edge = st.tuples(st.integers(0, 3), st.text(alphabet=ALPHA, min_size=250, max_size=250)).map(lambda t: t[1][:longest - t[0]])
+    return st.one_of(NAME, NAME, NAME, edge)
+
+
 DATE = st.dates(min_value=datetime.date(1000, 1, 1), max_value=datetime.date(9999, 12, 31))
 CONTRACT = st.one_of(st.just(None), st.just('Pass'),
                      st.tuples(st.integers(0, 34), st.integers(0, 2), st.integers(0, 3), st.integers(0, 13)),
                      st.tuples(st.integers(0, 34), st.integers(0, 2), st.integers(0, 3), st.integers(0, 13)),
                      st.tuples(st.integers(0, 34), st.integers(1, 2), st.integers(0, 3), st.integers(0, 13)))
 RESULT = st.fixed_dictionaries({
-    'event': NAME, 'site': NAME, 'date': DATE, 'board_num': st.one_of(st.integers(1, 40), st.integers(1, 10 ** 9)),
-    'players': st.lists(NAME, min_size=4, max_size=4), 'dealer': st.integers(0, 3), 'vul': st.sampled_from(GB.VULS),
+    'event': fitting('Event'), 'site': fitting('Site'), 'date': DATE, 'board_num': st.one_of(st.integers(1, 40), st.integers(1, 10 ** 9)),
+    'players': st.tuples(fitting('North'), fitting('East'), fitting('South'), fitting('West')).map(list), 'dealer': st.integers(0, 3), 'vul': st.sampled_from(GB.VULS),
     'owner': PL.DEAL, 'scoring': st.sampled_from(GB.SCORINGS), 'contract': CONTRACT})
 
 
